@@ -1,0 +1,19 @@
+//go:build verif
+
+package transport_controller
+
+import "io"
+
+// VerifReadStreamEstablishHeader exports the stream-establish header reader; returns the decoded protocol id.
+func VerifReadStreamEstablishHeader(r io.Reader) (string, error) {
+	h, err := readStreamEstablishHeader(r)
+	if err != nil {
+		return "", err
+	}
+	return h.GetProtocolId(), nil
+}
+
+// VerifMarshalStreamEstablishHeader exports the header writer.
+func VerifMarshalStreamEstablishHeader(protocolID string) []byte {
+	return marshalStreamEstablishHeader(&StreamEstablish{ProtocolId: protocolID})
+}
